@@ -57,6 +57,50 @@ def I_simp(I, bits):
     return out
 
 
+def known_eq(I, st, forms, const):
+    """does the path KNOW whether the value of these bits (msb first) equals const?  True / False / None (open) — never forks"""
+    w = len(forms)
+    eqs = [f ^ ((const >> (w - 1 - i)) & 1) for i, f in enumerate(forms)]
+    s_ = st.lin.implied(eqs)
+    if s_ == "true":
+        return True
+    if s_ == "false":
+        return False
+    red = tuple(st.lin.reduce(f) for f in forms)
+    for k, c, eq in st.eqs:
+        if not eq and c == const and tuple(st.lin.reduce(f) if isinstance(f, F) else f for f in k) == red:
+            return False
+    return None
+
+
+# ETSI TS 102 361-3, UDP/IPv4 compressed header: SPID = bits 25..31, DPID = bits 33..39; value 0 of a port identifier means "the
+# port number follows in an extended header"; extended header 1 is present iff at least one of them is 0, extended header 2 iff both
+UDP_SPID, UDP_DPID = range(25, 32), range(33, 40)
+
+
+def udp_extended_rule(ctx, I, br, base, N, reader):
+    st = br.st
+    sp0 = known_eq(I, st, [I.atom_form(("w", i)) for i in UDP_SPID], 0)
+    dp0 = known_eq(I, st, [I.atom_form(("w", i)) for i in UDP_DPID], 0)
+    e1, e2, ud = (br.obj.attrs.get(k, "absent") for k in ("extended_header_1", "extended_header_2", "user_data"))
+    if "absent" in (e1, e2, ud):
+        return   # the attributes this pinned-layout rule talks about do not exist under these names
+    if sp0 is None and dp0 is None and e1 is None and e2 is None:
+        sp0 = dp0 = False   # the reader never asked: it treats both ports as given in place
+    if sp0 is None or dp0 is None:
+        n_ext = None
+    else:
+        n_ext = int(sp0) + int(dp0)
+    got = (e1 is not None) + (e2 is not None)
+    ok = n_ext is not None and got == n_ext and (e2 is None or e1 is not None)
+    ud_len = len(ud.items) if isinstance(ud, ABits) else None
+    if ok and ud_len is not None:
+        ok = ud_len == N - 40 - 16 * n_ext
+    ctx.ob("udp/extended-headers", base, ok,
+           f"SPID==0: {sp0}, DPID==0: {dp0} on this branch -> {n_ext} extended header(s) expected; decoded: extended_header_1 {'present' if e1 is not None else 'absent'}, "
+           f"extended_header_2 {'present' if e2 is not None else 'absent'}, user data {ud_len} bits", reader.loc)
+
+
 def run(ctx):
     repo = ctx.repo
     ctx.explanation = (
@@ -82,6 +126,7 @@ def run(ctx):
     ctx.rule("codec-sym/decoder-drops-field", "no position the writer fills from a field is ignored by the reader of the same branch")
     ctx.rule("codec-sym/no-crash", "no reader/writer path ends in TypeError / AttributeError / OverflowError / IndexError (for all or some inputs)")
     ctx.rule("codec-sym/branches", "the number of decodable discriminator branches is at least the hand-confirmed count")
+    ctx.rule("udp/extended-headers", "UDP/IPv4 compressed header (pinned layout, TS 102 361-3): on every reader branch extended header 1 is decoded iff SPID or DPID is 0, extended header 2 iff both are, and the user data is what remains")
     ctx.rule("enum/width", "all members serialise to one width and fit it; from_bits(as_bits(m)) is m")
     ctx.rule("enum/total", "over the whole bit width a defined value maps to itself and an undefined one to a member or an explicit error — _missing_ never falls through to nothing")
     total_branches = 0
@@ -159,6 +204,8 @@ def run(ctx):
                                 if (rule, kk) not in seen_keys:
                                     seen_keys.add((rule, kk))
                                     ctx.ob("codec-sym/" + rule, kk, True, f"{N - len(br.reserved) - len(br.opaque)} positions carried by fields, {len(br.reserved)} reserved, {len(br.opaque)} opaque", reader.loc)
+                        if cname == "UDPIPv4CompressedHeader":
+                            udp_extended_rule(ctx, I, br, base, N, reader)
                         for p in br.opaque:
                             ctx.skip_opaque(f"{base}@{p}")
                         if len(ctx.samples) < 6 and br.reserved:
@@ -173,6 +220,7 @@ def run(ctx):
     ctx.require("codec-sym/position", 40)
     ctx.require("enum/total", 25)
     ctx.require("enum/width", 15)
+    ctx.require("udp/extended-headers", 3)
 
 
 def element_enums(repo):
